@@ -35,6 +35,18 @@ Proof.
 Qed.
 Print Assumptions every_scope_accounts.
 
+(* LOWERING stage (compiler/expr_compiler.py, compiler/stmt_compiler.py; node kinds = Guppy's own
+   checked nodes with their `_fields` from nodes.py + the Python kinds that survive checking):
+   every scope of ExprCompiler / StmtCompiler accounts for every field of its node kind.  This is
+   only the per-scope statement (no reachability: the checked-node grammar is not typed). *)
+Theorem lowering_scopes_account : forall s fd, In s (t_scopes ltbl) -> In fd (fields_of ltbl (s_kind s)) ->
+  Accounted ltbl s (f_name fd).
+Proof.
+  assert (check_scopes ltbl = true) as H by (vm_compute; reflexivity).
+  exact (check_scopes_sound ltbl H).
+Qed.
+Print Assumptions lowering_scopes_account.
+
 (* hypotheses are satisfiable on non-trivial instances: loops, calls, comprehensions, nested
    function signatures are reachable kinds with fields *)
 Example reach_nontrivial :
@@ -66,5 +78,8 @@ Example forgotten_fields_detected :
   check_all (forget_field "arguments" "defaults" tbl) = false /\
   check_all (forget_field "withitem" "optional_vars" tbl) = false /\
   check_all (forget_field "Slice" "step" tbl) = true (* Slice is rejected as a kind *) /\
-  check_all (silent_generic tbl) = false.
+  check_all (silent_generic tbl) = false /\
+  check_scopes (forget_field "DesugaredGenerator" "ifs" ltbl) = false /\
+  check_scopes (forget_field "DesugaredListComp" "generators" ltbl) = false /\
+  check_scopes (forget_field "Assign" "targets" ltbl) = false.
 Proof. vm_compute. repeat split; reflexivity. Qed.
